@@ -36,6 +36,12 @@ Lemma tg_live_of_sg s : Htp.Proof.PSeg.sg_live s -> tg_live s. Proof. intros [H|
 
 Local Open Scope Z_scope.
 
+(* what the caller sees of one data call: return code and consumed count; a call that leaves the request side out of tunnel mode *)
+Definition tn_o (r : cp_result) : Z * nat := (r_rc r, r_consumed r).
+Definition tn_rquiet (r : cp_result) : Prop := r_in_status r <> c_HTP_STREAM_TUNNEL.
+Lemma tn_live_quiet s : tg_live s -> s <> c_HTP_STREAM_TUNNEL.
+Proof. intros [[H|H]|H]; rewrite H; intro E; vm_compute in E; discriminate. Qed.
+
 (* ================= runs of operations ================= *)
 Section Run.
 Variable cb : cb_oracle.
